@@ -3,6 +3,8 @@ package props
 import (
 	"encoding/json"
 	"os"
+	"strconv"
+	"time"
 
 	"verif/core"
 )
@@ -30,3 +32,12 @@ func readJSON(path string, v any) {
 }
 
 func os_stderr() *os.File { return os.Stderr }
+
+// watchPeriod is the no-progress period after which an in-process check gives up (VERIF_WATCH_SECONDS
+// overrides it, for demonstrations).
+func watchPeriod() time.Duration {
+	if v, err := strconv.Atoi(os.Getenv("VERIF_WATCH_SECONDS")); err == nil && v > 0 {
+		return time.Duration(v) * time.Second
+	}
+	return 10 * time.Minute
+}
